@@ -22,17 +22,18 @@ const (
 
 // Query is one request seen by the server.
 type Query struct {
-	Seq      int64    // arrival order (atomic counter, starts at 1)
-	Labels   []string // QNAME exactly as on the wire, one entry per length-prefixed label (literal walk, no pointers)
-	Name     string   // Labels joined with ".", lower-cased
-	Type     uint16   // QTYPE (0 when the name could not be walked)
-	Parsed   bool     // dnsmessage.Parser accepted the whole message with exactly one question
-	Legal    bool     // every label 1..63 bytes, terminated, wire length <= 255
-	Rcode    int      // response code served (-1: no DNS response, see Status)
-	Status   int      // HTTP status served
-	Version  int      // zone version the answer was computed from
-	Answers  int      // RRs in the answer section
-	Poisoned bool     // the answer carried RRs owned by unrelated names
+	Seq       int64    // arrival order (atomic counter, starts at 1)
+	Labels    []string // QNAME exactly as on the wire, one entry per length-prefixed label (literal walk, no pointers)
+	Name      string   // Labels joined with ".", lower-cased
+	Type      uint16   // QTYPE (0 when the name could not be walked)
+	Parsed    bool     // dnsmessage.Parser accepted the whole message with exactly one question
+	Legal     bool     // every label 1..63 bytes, terminated, wire length <= 255
+	Rcode     int      // response code served (-1: no DNS response, see Status)
+	Status    int      // HTTP status served
+	Version   int      // zone version the answer was computed from
+	Answers   int      // RRs in the answer section
+	Poisoned  bool     // the answer carried RRs owned by unrelated names
+	Unordered bool     // a CNAME record of the answer stood after records owned by its target
 }
 
 // Server is a DoH endpoint (POST, application/dns-message) on 127.0.0.1 over
@@ -318,13 +319,14 @@ func (s *Server) ServeHTTP(w http.ResponseWriter, req *http.Request) {
 		var rrs []RR
 		rrs, q.Rcode, q.Poisoned = s.zone.Answer(q.Name, q.Type, s.version)
 		q.Answers = len(rrs)
+		rrs, q.Unordered = s.zone.Reorder(rrs)
 		var soa *NegSOA
 		if q.Rcode == 0 && len(rrs) == 0 {
 			soa = s.zone.NegSOA
 		}
 		if resp, err = Build(id, &pq, q.Rcode, rrs, s.zone.Compress, soa); err != nil {
 			// unencodable zone data: a fixture bug, visible to the client as SERVFAIL
-			q.Rcode, q.Answers, q.Poisoned = ServFail, 0, false
+			q.Rcode, q.Answers, q.Poisoned, q.Unordered = ServFail, 0, false, false
 			resp, err = Build(id, &pq, ServFail, nil, false)
 		}
 	}
